@@ -17,8 +17,9 @@ ID = "C15"
 LEVEL = "exploration"
 COUNTS = {"quick": 6000, "thorough": 500000}
 RULE = ("seeded histories of 2-25 events from {execute, replug (optionally another device type), unplug, plug, arm close failure "
-        "(raises-but-releases / raises-and-stays-open), arm CHECK CONDITION, close} on SCSIDevice (detect_replugged on/off, read-only/"
-        "read-write; plain, `with device`, `with SCSI(device)`, left normally or by exception) and ISCSIDevice; biased to a replug "
+        "(raises-but-releases / raises-and-stays-open), arm CHECK CONDITION, re-open refused once by the OS, node vanishing between the "
+        "library's open() and its next system call, device returning under another kernel name, close} on SCSIDevice (detect_replugged "
+        "on/off, read-only/read-write; named by node path or by a persistent symbolic link; built directly or by init_device; plain, `with device`, `with SCSI(device)`, left normally or by exception) and ISCSIDevice; biased to a replug "
         "right before a command and a close failure while a replug is pending. Non-trivial = at least one command was issued after a "
         "replug/unplug event; distinct = event digest")
 COMPONENTS = {"real": ["SCSIDevice (open/close/execute/_is_replugged/__exit__)", "ISCSIDevice (close/__exit__)", "SCSI.__enter__/__exit__"],
@@ -26,14 +27,18 @@ COMPONENTS = {"real": ["SCSIDevice (open/close/execute/_is_replugged/__exit__)",
               "simulated_peers": ["t10.targets LUs behind each node generation"]}
 ASSUMPTIONS = [
     "inode numbers may be recycled by later nodes, but never the number the library's currently open handle was opened on (indistinguishable for any stat-based detection)",
-    "node replacement happens between library calls (the simulator is sequential); a replug between the library's stat() and its ioctl is a race no user-space code can close and is not generated",
+    "node replacement happens between library calls, with one exception: the fault 'after_open' unplugs the node right after an open() of the library succeeded (before its next system call). A node *replaced* between the library's stat() and its ioctl is a race no user-space code can close and is not generated",
+    "the application may name the device by a persistent symbolic link (/dev/disk/by-id/...): the node 'at the path' is the node the link leads to now; a device may come back under another kernel name with the link re-pointed (and the old name taken by another device)",
     "a handle whose close() raised and stayed open at OS level is exempt from the exactly-one-release count",
     "when closing the stale handle fails, the exception may or may not propagate; what is demanded is that a fresh handle on the current inode was opened during that call and that no command was sent through the stale one",
 ]
 AUX_NAME = "event histories (sequence of op kinds incl. fault flavours, without ids)"
-REQUIRED_PROBES = ["inode_number_reused", "reattach_same_device", "raw_sense_execute", "cmd_after_replug", "close_fails", "replug_and_close_fails", "unplug_detected", "with_exit_exception", "detect_off_kept_handle", "iscsi_disconnect_once"]
+REQUIRED_PROBES = ["inode_number_reused", "reattach_same_device", "raw_sense_execute", "cmd_after_replug", "close_fails", "replug_and_close_fails", "unplug_detected", "with_exit_exception", "detect_off_kept_handle", "iscsi_disconnect_once",
+                   "symlink_path", "via_init_device", "link_retargeted", "reopen_refused_once", "vanished_mid_call"]
 
 PATH = "/dev/sg3"
+PATH2 = "/dev/sg4"
+LINK = "/dev/disk/by-id/scsi-verif0"      # a persistent name: a symbolic link to whatever node the device currently has
 
 
 def setup(repo):
@@ -49,6 +54,13 @@ def gen_ops(rng, n):
         if pending and r < 0.6:
             op = {"op": "execute", "cc": rng.random() < 0.15, "raw": rng.random() < 0.25}
             pending = False
+            r2 = rng.random()
+            if r2 < 0.12:
+                op["open_errno"] = rng.choice([13, 13, 16, 24])     # the re-open is refused once (EACCES while udev fixes permissions, EBUSY, EMFILE)
+                pending = True
+            elif r2 < 0.2:
+                op["vanish_after_open"] = True                       # the node is unplugged again between the library's open() and its next system call
+                pending = True
         elif r < 0.3:
             op = {"op": "execute", "cc": rng.random() < 0.2, "raw": rng.random() < 0.2}
         elif r < 0.55:
@@ -57,6 +69,10 @@ def gen_ops(rng, n):
                 op["type"] = rng.choice([0, 5, 8, 3])
             if rng.random() < 0.25:
                 op["reuse_ino"] = rng.choice([0, 0, 1, 2])     # the new node gets the inode number of an earlier generation (tmpfs/devtmpfs recycle numbers)
+            pending = True
+        elif r < 0.6:
+            # the device comes back under another kernel name; a persistent link (if the application uses one) is re-pointed
+            op = {"op": "retarget", "decoy": rng.random() < 0.4}
             pending = True
         elif r < 0.63:
             op = {"op": "unplug"}
@@ -84,7 +100,8 @@ def generate(rng, idx, tier):
            "mode": rng.choice(["plain", "plain", "with_device", "with_facade", "nested_with"]),
            "exit": rng.choice(["normal", "normal", "exception"]),
            "exit_exc": rng.choice(["custom", "custom", "OSError", "RuntimeError", "KeyError", "FileNotFoundError", "NotImplementedError", "KeyboardInterrupt"]),
-           "close_at_end": rng.random() < 0.6}
+           "close_at_end": rng.random() < 0.6,
+           "path": rng.choice(["node", "node", "node", "symlink"]), "via": rng.choice(["SCSIDevice", "SCSIDevice", "init_device"])}
     n = rng.choice([2, 3, 4, 5, 6, 8, 12, 25])
     return {"property": ID, "config": cfg, "ops": gen_ops(rng, n)}
 
@@ -113,15 +130,25 @@ def execute(prog):
         return T.make_lu(t, 0, gen[0])
 
     sgio_mode_early = cfg["transport"] != "iscsi"
+    DEV = LINK if cfg.get("path") == "symlink" else PATH      # the path the application names
+    loc = {"real": PATH}                                        # where the node currently lives
     if cfg["transport"] == "iscsi":
         lu = new_lu()
         kind, dev = worlds.outcome_of(lambda: worlds.open_device("iscsi", lu))
     else:
         WORLD.plug(PATH, new_lu())
-        kind, dev = worlds.outcome_of(lambda: SCSIDevice(PATH, readwrite=cfg["readwrite"], detect_replugged=cfg["detect"]))
+        if DEV == LINK:
+            WORLD.symlink(LINK, PATH)
+            WORLD.probe("symlink_path")
+        if cfg.get("via") == "init_device" and cfg["detect"]:
+            from pyscsi.utils import init_device
+            WORLD.probe("via_init_device")
+            kind, dev = worlds.outcome_of(lambda: init_device(DEV, cfg["readwrite"]))
+        else:
+            kind, dev = worlds.outcome_of(lambda: SCSIDevice(DEV, readwrite=cfg["readwrite"], detect_replugged=cfg["detect"]))
     if kind == "exc":
         raise RuntimeError("harness: device construction failed: %r" % (dev,))
-    inos = [WORLD.nodes[PATH].ino] if sgio_mode_early else []
+    inos = [WORLD.lookup(DEV).ino] if sgio_mode_early else []
     st = {"closed": False, "post_replug": False, "first_hid": 0, "cmds_after_event": 0, "explicit_close": False}
     sgio_mode = cfg["transport"] == "sgio"
 
@@ -142,8 +169,13 @@ def execute(prog):
             WORLD.arm({"kind": "ioctl_error", "errno": op["ioctl_errno"]})
         elif op.get("cc"):
             WORLD.arm({"kind": "status", "byte": 2, "sense": S.fixed(6, 0x29, 0).hex()})
+        if op.get("open_errno") and sgio_mode:
+            WORLD.arm({"kind": "open_fails", "errno": op["open_errno"]})
+        if op.get("vanish_after_open") and sgio_mode:
+            WORLD.arm({"kind": "after_open"})
+        fired0 = dict(WORLD.fired)
         mark_ev = len(WORLD.events)
-        node = WORLD.nodes.get(PATH) if sgio_mode else None
+        node = WORLD.lookup(DEV) if sgio_mode else None
         if scsi is not None and op.get("via_facade"):
             kind, val = worlds.outcome_of(lambda: scsi.testunitready())
         else:
@@ -156,6 +188,8 @@ def execute(prog):
         evs = WORLD.events[mark_ev:]
         if not sgio_mode:
             return kind, val
+        open_failed = WORLD.fired.get("open_fails", 0) > fired0.get("open_fails", 0)
+        vanished = WORLD.fired.get("after_open", 0) > fired0.get("after_open", 0)
         cmds = [e for e in evs if e["kind"] == "sgio.cmd"]
         opens = [e for e in evs if e["kind"] == "vfs.open"]
         closes_failed = [e for e in evs if e["kind"] == "vfs.close" and e.get("error")]
@@ -178,7 +212,22 @@ def execute(prog):
                 else:
                     WORLD.probe("unplug_detected")
                 return kind, val
+            if vanished:
+                # the node went away between the library's open() and its next system call: the call may fail or may use the handle it
+                # just opened; it must not fall back to an older handle, and whatever it opened is still released at close (end of run)
+                WORLD.probe("vanished_mid_call")
+                newest = max([e["hid"] for e in opens if "hid" in e] or [-1])
+                for e in cmds:
+                    if e["hid"] != newest:
+                        V.append(dict(oracle="C15.stale-handle", where=where, detail="vanish-after-open",
+                                      expected="no command through a handle older than the one just opened (#%d)" % newest, actual="handle #%d" % e["hid"]))
+                st["post_replug"] = True
+                return kind, val
             for e in cmds:
+                if WORLD.handles[e["hid"]].node is not node:
+                    V.append(dict(oracle="C15.wrong-node", where=where, detail="cmd",
+                                  expected="command to the node now at %s (inode %s)" % (DEV, node.ino),
+                                  actual="handle #%d is open on %s (inode %s)" % (e["hid"], WORLD.handles[e["hid"]].name, WORLD.handles[e["hid"]].ino)))
                 if not e.get("same_node", e.get("handle_ino") == e.get("path_ino")):
                     V.append(dict(oracle="C15.stale-handle", where=where, detail="cmd",
                                   expected="command through a handle on the node now at the path (inode %s)" % e.get("path_ino"),
@@ -188,12 +237,19 @@ def execute(prog):
                     if h.close_calls == 0:
                         V.append(dict(oracle="C15.superseded-not-closed", where=where, detail="cmd",
                                       expected="superseded handle #%d closed before the command is sent" % h.hid, actual="close never attempted"))
-            if st["post_replug"]:
+            if st["post_replug"] and open_failed and not [e for e in opens if "hid" in e]:
+                # the OS refused the re-open: the call fails (or not), nothing went through the stale handle (judged above), and the
+                # replacement is still pending for the next call
+                WORLD.probe("reopen_refused_once")
+                if cmds:
+                    V.append(dict(oracle="C15.stale-handle", where=where, detail="reopen-refused",
+                                  expected="no command: the node was replaced and the re-open failed", actual="%d command(s) sent" % len(cmds)))
+            elif st["post_replug"]:
                 # a replug was pending when this call started: exactly one fresh open on the current inode must have happened in it
                 ok_open = [e for e in opens if e.get("ino") == node.ino]
                 if not ok_open or opens[-1].get("ino") != node.ino:
                     V.append(dict(oracle="C15.no-fresh-handle", where=where, detail="close-failed" if closes_failed else "replug",
-                                  expected="a fresh open of %s on inode %d during this execute" % (PATH, node.ino),
+                                  expected="a fresh open of %s on inode %d during this execute" % (DEV, node.ino),
                                   actual="%d open(s): %s; outcome %s" % (len(opens), [e.get("ino") for e in opens], "ok" if kind == "ok" else type(val).__name__)))
                 if closes_failed:
                     WORLD.probe("replug_and_close_fails")
@@ -242,25 +298,43 @@ def execute(prog):
                 ino = None
                 if "reuse_ino" in op and len(inos) > op["reuse_ino"]:
                     cand = inos[op["reuse_ino"]]
-                    cur_node = WORLD.nodes.get(PATH)
+                    cur_node = WORLD.lookup(DEV)
                     live = [h for h in WORLD.handles if not h.closed]
                     # a node that comes back with the very inode number the library's handle was opened on cannot be told apart by any
                     # stat-based detection; that case is not generated (ASSUMPTIONS)
                     if (cur_node is None or cur_node.ino != cand) and not any(h.ino == cand for h in live):
                         ino = cand
                         WORLD.probe("inode_number_reused")
-                node = WORLD.replug(PATH, new_lu(op.get("type", 0)), ino)
+                node = WORLD.replug(loc["real"], new_lu(op.get("type", 0)), ino)
                 inos.append(node.ino)
                 st["post_replug"] = True
                 summary.append("replug")
+            elif name == "retarget" and sgio_mode:
+                if DEV == LINK:
+                    old = loc["real"]
+                    if old in WORLD.nodes:
+                        WORLD.unplug(old)
+                    loc["real"] = PATH2 if old == PATH else PATH
+                    if loc["real"] in WORLD.nodes:
+                        WORLD.unplug(loc["real"])          # a decoy that lived there goes away
+                    node = WORLD.plug(loc["real"], new_lu())
+                    WORLD.symlink(LINK, loc["real"])
+                    if op.get("decoy"):
+                        WORLD.plug(old, new_lu(3))           # the old kernel name is taken by an unrelated device
+                    WORLD.probe("link_retargeted")
+                else:
+                    node = WORLD.replug(loc["real"], new_lu())
+                inos.append(node.ino)
+                st["post_replug"] = True
+                summary.append("retarget")
             elif name == "unplug" and sgio_mode:
-                if PATH in WORLD.nodes:
-                    WORLD.unplug(PATH)
+                if loc["real"] in WORLD.nodes:
+                    WORLD.unplug(loc["real"])
                 st["post_replug"] = True
                 summary.append("unplug")
             elif name == "plug" and sgio_mode:
-                if PATH not in WORLD.nodes:
-                    WORLD.plug(PATH, new_lu())
+                if loc["real"] not in WORLD.nodes:
+                    WORLD.plug(loc["real"], new_lu())
                     st["post_replug"] = True
                 summary.append("plug")
             elif name == "reattach_same":
@@ -268,7 +342,7 @@ def execute(prog):
                     WORLD.armed.clear()
                     k0, v0 = worlds.outcome_of(lambda: scsi(dev))
                     WORLD.probe("reattach_same_device")
-                    if sgio_mode and cfg["detect"] and st["post_replug"] and PATH in WORLD.nodes:
+                    if sgio_mode and cfg["detect"] and st["post_replug"] and WORLD.lookup(DEV) is not None:
                         st["post_replug"] = False       # the attach INQUIRY already went through the replug path
                     summary.append("reattach:%s" % ("ok" if k0 == "ok" else type(v0).__name__))
             elif name == "arm_close_fails" and sgio_mode:
@@ -310,7 +384,7 @@ def execute(prog):
                             WORLD.probe("with_exit_exception")
                             raise leave_exception(cfg)
             else:
-                if PATH not in WORLD.nodes and sgio_mode:
+                if WORLD.lookup(DEV) is None and sgio_mode:
                     return
                 with SCSI(dev, blocksize=512) as s:
                     run_ops(s)
